@@ -53,6 +53,7 @@ type taken struct {
 }
 
 type strRun struct {
+	wg sync.WaitGroup // the processor goroutines (finish waits for them: a straggler would write into the next case's trace)
 	v        *pipeline.VerifStreamer
 	mu       sync.Mutex
 	trace    []string
@@ -167,7 +168,9 @@ func newStrRun(nprocs, nstreams int) *strRun {
 	for i := 0; i < nprocs; i++ {
 		p := &strProc{id: i, cmd: make(chan string, 1), st: "idle"}
 		run.procs = append(run.procs, p)
+		run.wg.Add(1)
 		go func() {
+			defer run.wg.Done()
 			run.mu.Lock()
 			run.goids[goidC04()] = p
 			run.mu.Unlock()
@@ -510,6 +513,13 @@ func (run *strRun) finish() {
 	time.Sleep(300 * time.Microsecond)
 	for _, p := range run.procs {
 		close(p.cmd)
+	}
+	// no straggler may outlive the case: its trace points would land in the next case's trace
+	gone := make(chan struct{})
+	go func() { run.wg.Wait(); close(gone) }()
+	select {
+	case <-gone:
+	case <-time.After(2 * time.Second):
 	}
 }
 
